@@ -281,6 +281,8 @@ def build(kind, n, na, nb, seed=0, variant="", n_batch=1, eps=None, full_basis=T
 
     if kind in ("UCISD", "ucisd"):
         moB = al.frame(n, seed, 8)
+        if variant == "nonorth":  # overlap statement only: the beta determinants are built from NON-orthonormal columns
+            moB = moB @ _tmat(n, seed, 61)
         noa, nva, nob, nvb = na, n - na, nb, n - nb
         cls = wf.UCISD if kind == "UCISD" else wf.ucisd
         trial = cls(n, (na, nb), n_batch=n_batch, **(kw if kind == "UCISD" else {}))
